@@ -326,8 +326,9 @@ def expected_updateFile_fixed : List String := expected_updateFile.take 41 ++ up
 
 theorem expected_updateFile_break : (expected_updateFile.drop 41).take 1 = [".break"] := by decide
 
-/-- `sealTornTail`, committed shape (fix F47 = /repo efaf20c): read the last byte, write "\n" unless it is one; a failure
-to open the file for reading or to read the byte is returned to `updateFile`, which exits -/
+/-- `sealTornTail`, shape of fix F47 = /repo efaf20c alone (NO LONGER ACCEPTED since F47b = /repo 73f7348 is committed;
+kept as the base of `expected_sealTornTail_warns` and so that a revert is named): read the last byte, write "\n" unless
+it is one; a failure to open the file for reading or to read the byte is returned to `updateFile`, which exits -/
 def expected_sealTornTail : List String := [
   "r, err := os.Open(name)",
   "if err != nil",
@@ -343,37 +344,36 @@ def expected_sealTornTail : List String := [
   "f.filesize += int64(n)",
   "return err"]
 
-/-- `sealTornTail`, shape of the follow-up F47b (`fixes/F47b_seal_unreadable_file.patch`, round 11): the two READ failures
-(`os.Open`, `ReadAt`) log a warning (log lines are not part of a skeleton) and return nil — the file is appended to
-unsealed; everything else as committed, in particular `return err` of the write of the "\n" -/
+/-- `sealTornTail`, shape of the follow-up F47b (= /repo 73f7348, committed; the ONLY accepted shape): the two READ
+failures (`os.Open`, `ReadAt`) log a warning (log lines are not part of a skeleton) and return nil — the file is appended
+to unsealed; everything else as in F47, in particular `return err` of the write of the "\n" -/
 def expected_sealTornTail_warns : List String :=
   (expected_sealTornTail.set 2 ".return nil").set 7 ".return nil"
 
-/-- **`updateFile()` has the shape of fix F47** (/repo efaf20c, committed; audit B12) **and `sealTornTail` is one of exactly
-two frozen functions**: the committed one, or the one of the proposed follow-up F47b (round 11; see
-`sealTornTail_known_shapes`). The shape before F47 (`expected_updateFile`, no `sealTornTail`:
-`Props.C19Lines.fin_owns_line_full_false`) is not accepted: with F47 reverted this tie breaks, the probe
+/-- **`updateFile()` has the shape of fix F47** (/repo efaf20c, committed; audit B12) **and `sealTornTail` is exactly one
+frozen function**: the one of the follow-up F47b (/repo 73f7348, committed). The shape before F47 (`expected_updateFile`,
+no `sealTornTail`: `Props.C19Lines.fin_owns_line_full_false`) is not accepted: with F47 reverted this tie breaks, the probe
 `vfE8ProbeSealsTail` on the real `updateFile()` disagrees with the expected value, and the torn-tail scenarios report
-`torn-tail-append` (listed `fixed`) as a VIOLATION.
-AFTER F47b IS COMMITTED: drop the first disjunct (only `expected_sealTornTail_warns` stays). -/
+`torn-tail-append` (listed `fixed`) as a VIOLATION. The `sealTornTail` of F47 alone (`expected_sealTornTail`: an
+unreadable file is a fatal exit) is not accepted either: with F47b reverted this tie and `tree_seal_read_warns` break and
+the probe `vfE8ProbeSealReadWarns` says 0. -/
 theorem updateFile_eq :
     Nsq.Gen.ToolsToFile.updateFile = expected_updateFile_fixed ∧
-    (Nsq.Gen.ToolsToFile.sealTornTail = expected_sealTornTail ∨
-     Nsq.Gen.ToolsToFile.sealTornTail = expected_sealTornTail_warns) := by decide
+    Nsq.Gen.ToolsToFile.sealTornTail = expected_sealTornTail_warns := by decide
 
-/-- which of the two it is (model parameter `Cfg.sealReadWarns`): `true` iff the regenerated `sealTornTail` is the F47b
-function -/
+/-- model parameter `Cfg.sealReadWarns`, still computed: `true` iff the regenerated `sealTornTail` is the F47b
+function (decided `true` below; `lib/c19_lines.py seal_read_warns_from_gen` makes the same comparison) -/
 def sealReadWarns : Bool := decide (Nsq.Gen.ToolsToFile.sealTornTail = expected_sealTornTail_warns)
 
-/-- the two shapes differ, so the Bool identifies the function. AFTER F47b IS COMMITTED: replace by
-`tree_seal_read_warns : sealReadWarns = true := by decide`. -/
-theorem sealTornTail_known_shapes :
-    (sealReadWarns = false ∧ Nsq.Gen.ToolsToFile.sealTornTail = expected_sealTornTail) ∨
-    (sealReadWarns = true ∧ Nsq.Gen.ToolsToFile.sealTornTail = expected_sealTornTail_warns) := by decide
+/-- **this tree warns and appends when the file cannot be read** (F47b = /repo 73f7348): the model runs with
+`sealReadWarns := true`, so what is claimed for the tree carries `ReadsOk`
+(`Props.C19Lines.fin_owns_line_this_tree_partial`) -/
+theorem tree_seal_read_warns : sealReadWarns = true := by decide
 
+/-- the shape of F47 alone is a different function: a tree with F47b reverted fails the two facts above -/
 theorem sealTornTail_shapes_differ : expected_sealTornTail ≠ expected_sealTornTail_warns := by decide
 
-/-- **in both shapes a failure to WRITE the terminating newline is fatal**: the function ends with the write, the size
+/-- **a failure to WRITE the terminating newline is fatal** (F47 and F47b alike): the function ends with the write, the size
 update and `return err`; the only `return nil` that follows a successful read is the one for a last byte that IS "\n";
 `updateFile` answers a non-nil result with `os.Exit(1)` (`updateFileSeal`, part of `expected_updateFile_fixed`) — the
 model's `sealTail` writes through `onOut`, whose failure is `fatalExit` -/
@@ -385,7 +385,7 @@ theorem sealTornTail_write_error_fatal :
       [".if openFlag&os.O_APPEND != 0 && f.filesize > 0", "..err = f.sealTornTail(absFilename)", "..if err != nil",
        "...os.Exit(1)", ".break"] := by decide
 
-/-- in both shapes the file is read before anything is written: open for reading, `ReadAt` of the last byte, and only
+/-- the file is read before anything is written (F47 and F47b alike): open for reading, `ReadAt` of the last byte, and only
 then the write -/
 theorem sealTornTail_reads_then_writes :
     effectCallsR ["os.Open(name)", "r.ReadAt(last, f.filesize-1)", "f.out.Write("] Nsq.Gen.ToolsToFile.sealTornTail =
